@@ -20,8 +20,13 @@ Ltac elim_last H :=
       rewrite E; clear E
   end.
 
-Ltac side := solve [ simpl; tauto
-                   | repeat first [ assumption | apply xor_byte | apply gmul_byte; [simpl; tauto|] ] ].
+Ltac byte_side :=
+  repeat match goal with
+         | |- byte (gmul _ _) => apply gmul_byte; [simpl; tauto|]
+         | |- byte (Z.lxor _ _) => apply xor_byte
+         | |- byte _ => assumption
+         end.
+Ltac side := solve [ simpl; tauto | byte_side ].
 
 Ltac get_ids a Ha :=
   let H := fresh "I" in
@@ -35,6 +40,15 @@ Ltac bitify n :=
          end;
   rewrite ?Z.lxor_spec, ?Z.bits_0 in *.
 
+Ltac use_zero t1 t2 :=
+  match goal with
+  | H : xorb (xorb (xorb (Z.testbit t1 ?n) (Z.testbit t2 ?n)) _) _ = false |- _ => elim_last H
+  end.
+Ltac use_one t1 t2 x :=
+  match goal with
+  | H : xorb (xorb (xorb (Z.testbit t1 ?n) (Z.testbit t2 ?n)) _) _ = Z.testbit x ?n |- _ => rewrite <- H
+  end.
+
 Section Column.
   Variables a b c d : Z.
   Hypothesis (Ha : byte a) (Hb : byte b) (Hc : byte c) (Hd : byte d).
@@ -43,18 +57,156 @@ Section Column.
   Let m2 := xor4 a b (gmul 2 c) (gmul 3 d).
   Let m3 := xor4 (gmul 3 a) b c (gmul 2 d).
 
-  Ltac row A B C D :=
-    subst m0 m1 m2 m3; unfold xor4;
+  Ltac row_setup :=
+    unfold m0, m1, m2, m3, xor4;
     rewrite !(gmul_add 14), !(gmul_add 11), !(gmul_add 13), !(gmul_add 9) by side;
     get_ids a Ha; get_ids b Hb; get_ids c Hc; get_ids d Hd;
     apply Z.bits_inj'; intros n Hn; bitify n.
 
   Lemma invmix_r0 : xor4 (gmul 14 m0) (gmul 11 m1) (gmul 13 m2) (gmul 9 m3) = a.
   Proof.
-    subst m0 m1 m2 m3; unfold xor4.
-    rewrite !(gmul_add 14), !(gmul_add 11), !(gmul_add 13), !(gmul_add 9) by side.
-    get_ids a Ha. get_ids b Hb. get_ids c Hc. get_ids d Hd.
-    apply Z.bits_inj'; intros n Hn; bitify n.
-    rewrite <- I. elim_last I31. elim_last I45. elim_last I59. btauto.
+    row_setup.
+    use_one (gmul 14 (gmul 2 a)) (gmul 11 a) a.
+    use_zero (gmul 14 (gmul 3 b)) (gmul 11 (gmul 2 b)).
+    use_zero (gmul 14 c) (gmul 11 (gmul 3 c)).
+    use_zero (gmul 14 d) (gmul 11 d).
+    btauto.
+  Qed.
+
+  Lemma invmix_r1 : xor4 (gmul 9 m0) (gmul 14 m1) (gmul 11 m2) (gmul 13 m3) = b.
+  Proof.
+    row_setup.
+    use_one (gmul 9 (gmul 3 b)) (gmul 14 (gmul 2 b)) b.
+    use_zero (gmul 9 (gmul 2 a)) (gmul 14 a).
+    use_zero (gmul 9 c) (gmul 14 (gmul 3 c)).
+    use_zero (gmul 9 d) (gmul 14 d).
+    btauto.
+  Qed.
+
+  Lemma invmix_r2 : xor4 (gmul 13 m0) (gmul 9 m1) (gmul 14 m2) (gmul 11 m3) = c.
+  Proof.
+    row_setup.
+    use_one (gmul 13 c) (gmul 9 (gmul 3 c)) c.
+    use_zero (gmul 13 (gmul 2 a)) (gmul 9 a).
+    use_zero (gmul 13 (gmul 3 b)) (gmul 9 (gmul 2 b)).
+    use_zero (gmul 13 d) (gmul 9 d).
+    btauto.
+  Qed.
+
+  Lemma invmix_r3 : xor4 (gmul 11 m0) (gmul 13 m1) (gmul 9 m2) (gmul 14 m3) = d.
+  Proof.
+    row_setup.
+    use_one (gmul 11 d) (gmul 13 d) d.
+    use_zero (gmul 11 (gmul 2 a)) (gmul 13 a).
+    use_zero (gmul 11 (gmul 3 b)) (gmul 13 (gmul 2 b)).
+    use_zero (gmul 11 c) (gmul 13 (gmul 3 c)).
+    btauto.
   Qed.
 End Column.
+
+Lemma InvMix_Mix s : good16 s -> InvMixColumns (MixColumns s) = s.
+Proof.
+  intros Hs. explode s Hs.
+  cbv [InvMixColumns MixColumns build st map seq nth Nat.modulo Nat.divmod Nat.div Nat.add Nat.mul Nat.sub fst snd].
+  repeat (apply (f_equal2 (@cons Z));
+          [first [apply invmix_r0 | apply invmix_r1 | apply invmix_r2 | apply invmix_r3]; assumption|]).
+  reflexivity.
+Qed.
+
+Lemma InvSub_Sub_bytes s : good16 s -> InvSubBytes (SubBytes s) = s.
+Proof.
+  intros [_ Hb]. unfold InvSubBytes, SubBytes. rewrite map_map.
+  rewrite <- (map_id s) at 2. apply map_ext_in. intros x Hx. apply InvSub_Sub.
+  rewrite Forall_forall in Hb. auto.
+Qed.
+
+Lemma xorl_cancel : forall s k, length s = length k -> xorl (xorl s k) k = s.
+Proof.
+  induction s; intros [|y k] H; cbn in *; try discriminate; [reflexivity|].
+  rewrite IHs by lia. f_equal. rewrite Z.lxor_assoc, Z.lxor_nilpotent, Z.lxor_0_r. reflexivity.
+Qed.
+
+Lemma ark_cancel s k : good16 s -> good16 k -> AddRoundKey (AddRoundKey s k) k = s.
+Proof. intros [H1 _] [H2 _]. unfold AddRoundKey. apply xorl_cancel. lia. Qed.
+
+Opaque SubBytes ShiftRows MixColumns InvSubBytes InvShiftRows InvMixColumns AddRoundKey round_key.
+
+Ltac good_tac2 :=
+  repeat match goal with
+         | |- good16 (AddRoundKey _ _) => apply xorl_good
+         | |- good16 (SubBytes _) => apply SubBytes_good
+         | |- good16 (ShiftRows _) => apply ShiftRows_good
+         | |- good16 (MixColumns _) => apply MixColumns_good
+         | |- good16 _ => assumption
+         end.
+
+Lemma InvCipher_Cipher kb pb : good16 kb -> good16 pb -> InvCipher kb (Cipher kb pb) = pb.
+Proof.
+  intros Hk Hp. unfold InvCipher, Cipher. cbn [cipher_rounds inv_cipher_rounds Nat.sub].
+  destruct (round_key_spec kb 0 Hk ltac:(lia)) as [_ [G0 _]].
+  destruct (round_key_spec kb 1 Hk ltac:(lia)) as [_ [G1 _]].
+  destruct (round_key_spec kb 2 Hk ltac:(lia)) as [_ [G2 _]].
+  destruct (round_key_spec kb 3 Hk ltac:(lia)) as [_ [G3 _]].
+  destruct (round_key_spec kb 4 Hk ltac:(lia)) as [_ [G4 _]].
+  destruct (round_key_spec kb 5 Hk ltac:(lia)) as [_ [G5 _]].
+  destruct (round_key_spec kb 6 Hk ltac:(lia)) as [_ [G6 _]].
+  destruct (round_key_spec kb 7 Hk ltac:(lia)) as [_ [G7 _]].
+  destruct (round_key_spec kb 8 Hk ltac:(lia)) as [_ [G8 _]].
+  destruct (round_key_spec kb 9 Hk ltac:(lia)) as [_ [G9 _]].
+  destruct (round_key_spec kb 10 Hk ltac:(lia)) as [_ [G10 _]].
+  generalize dependent (KeyExpansion kb). intros w G0 G1 G2 G3 G4 G5 G6 G7 G8 G9 G10.
+  repeat first [ rewrite ark_cancel by good_tac2
+               | rewrite InvShift_Shift by good_tac2
+               | rewrite InvSub_Sub_bytes by good_tac2
+               | rewrite InvMix_Mix by good_tac2 ].
+  reflexivity.
+Qed.
+
+Theorem dec_inverts_enc key pt : 0 <= key < 2 ^ 128 -> 0 <= pt < 2 ^ 128 ->
+  m_decryption key (m_encryption key pt) = pt.
+Proof.
+  intros Hk Hp.
+  rewrite enc_model_is_fips197 by assumption. unfold CipherZ.
+  assert (Gc : good16 (Cipher (bytes_be key) (bytes_be pt))).
+  { pose proof (bytes_be_good key) as Gk. pose proof (bytes_be_good pt) as Gp.
+    unfold Cipher. cbn [cipher_rounds].
+    destruct (round_key_spec _ 0 Gk ltac:(lia)) as [_ [G0 _]].
+    destruct (round_key_spec _ 1 Gk ltac:(lia)) as [_ [G1 _]].
+    destruct (round_key_spec _ 2 Gk ltac:(lia)) as [_ [G2 _]].
+    destruct (round_key_spec _ 3 Gk ltac:(lia)) as [_ [G3 _]].
+    destruct (round_key_spec _ 4 Gk ltac:(lia)) as [_ [G4 _]].
+    destruct (round_key_spec _ 5 Gk ltac:(lia)) as [_ [G5 _]].
+    destruct (round_key_spec _ 6 Gk ltac:(lia)) as [_ [G6 _]].
+    destruct (round_key_spec _ 7 Gk ltac:(lia)) as [_ [G7 _]].
+    destruct (round_key_spec _ 8 Gk ltac:(lia)) as [_ [G8 _]].
+    destruct (round_key_spec _ 9 Gk ltac:(lia)) as [_ [G9 _]].
+    destruct (round_key_spec _ 10 Gk ltac:(lia)) as [_ [G10 _]].
+    good_tac2. }
+  rewrite dec_model_is_fips197; [|assumption|apply of_bytes_be_range; exact Gc].
+  unfold InvCipherZ. rewrite bytes_be_of_bytes_be by exact Gc.
+  rewrite InvCipher_Cipher by apply bytes_be_good.
+  apply of_bytes_be_bytes_be. exact Hp.
+Qed.
+
+Theorem InvCipherZ_CipherZ key pt : 0 <= key < 2 ^ 128 -> 0 <= pt < 2 ^ 128 ->
+  InvCipherZ key (CipherZ key pt) = pt.
+Proof.
+  intros Hk Hp. rewrite <- enc_model_is_fips197 by assumption.
+  rewrite <- dec_model_is_fips197; [apply dec_inverts_enc; assumption|assumption|].
+  rewrite enc_model_is_fips197 by assumption. unfold CipherZ. apply of_bytes_be_range.
+  (* goodness of the cipher output *)
+  pose proof (bytes_be_good key) as Gk. pose proof (bytes_be_good pt) as Gp.
+  unfold Cipher. cbn [cipher_rounds].
+  destruct (round_key_spec _ 0 Gk ltac:(lia)) as [_ [G0 _]].
+  destruct (round_key_spec _ 1 Gk ltac:(lia)) as [_ [G1 _]].
+  destruct (round_key_spec _ 2 Gk ltac:(lia)) as [_ [G2 _]].
+  destruct (round_key_spec _ 3 Gk ltac:(lia)) as [_ [G3 _]].
+  destruct (round_key_spec _ 4 Gk ltac:(lia)) as [_ [G4 _]].
+  destruct (round_key_spec _ 5 Gk ltac:(lia)) as [_ [G5 _]].
+  destruct (round_key_spec _ 6 Gk ltac:(lia)) as [_ [G6 _]].
+  destruct (round_key_spec _ 7 Gk ltac:(lia)) as [_ [G7 _]].
+  destruct (round_key_spec _ 8 Gk ltac:(lia)) as [_ [G8 _]].
+  destruct (round_key_spec _ 9 Gk ltac:(lia)) as [_ [G9 _]].
+  destruct (round_key_spec _ 10 Gk ltac:(lia)) as [_ [G10 _]].
+  good_tac2.
+Qed.
